@@ -495,6 +495,8 @@ func (s *simSource) Read(buf []byte) (int, error) {
 		// a run that keeps reading forever (e.g. a retry loop that ignores its deadline): stop it and flag it
 		h.ReadOverrun = true
 		w.mu.Unlock()
+		// (virtual) time passes: a reader that treats even this as "nothing there, try again" still reaches its deadline
+		time.Sleep(time.Millisecond)
 		return 0, errors.New("simnet: read cap exceeded (runaway reader)")
 	}
 	if f, ok := w.fault(h, "read"); ok {
@@ -511,6 +513,9 @@ func (s *simSource) Read(buf []byte) (int, error) {
 		}
 		if f.Stall > 0 {
 			time.Sleep(f.Stall) // the failing read blocks that long first (an error that surfaces at the end of a poll)
+		} else if f.Persist {
+			// a source that fails every read still lets (virtual) time pass: a caller that retries spins, it does not freeze
+			time.Sleep(time.Millisecond)
 		}
 		return 0, f.Err
 	}
